@@ -27,6 +27,17 @@ def make_csys(W, name, basis=None):
     raise ValueError(name)
 
 
+def split_layout(cfg):
+    """'1q/F' -> ('1q', 'F'): the input array is handed over in Fortran memory order (a transposed view)"""
+    name, _, layout = cfg.partition("/")
+    return name, layout
+
+
+def as_layout(x, layout):
+    """an arbitrary matrix stays arbitrary under transposition; the view has Fortran memory order"""
+    return x.T if layout else x
+
+
 DIMS = {"1q": 2, "1qt": 3, "2q": 4, "qxqt": 6}
 
 
